@@ -129,7 +129,7 @@ def main(prop: str, tier: str, rep: common.Reporter | None = None, finish: bool 
                                 continue
                         if kind == 'exc' and prop == 'C10' and '/attached/' in fp:
                             continue
-                        rep.violation(f'{fp}/{kind}', detail)
+                        rep.violation(fp if fp.startswith('custom.values/negative') else f'{fp}/{kind}', detail)
     rep.cov.update({
         'states': (rep.cov.get('states', 0) + states) or 1,
         'transitions': (rep.cov.get('transitions', 0) + transitions) or 1,
@@ -143,6 +143,12 @@ def main(prop: str, tier: str, rep: common.Reporter | None = None, finish: bool 
         'exhaustive within the constants listed in replist_runs (depth 1 with every index/slice spelling, depth 2-3 over reduced, seed-dependent argument menus)',
         'initial lists hold only item types a normally parsed document can hold standalone; comments enter through API calls',
     ]
+    if prop == 'C10':
+        from checks import repimpl
+        ri = repimpl.run(rep, tier)
+        rep.cov['repimpl_design_check'] = ri
+        rep.cov['states'] += ri['states']
+        rep.cov['transitions'] += ri['transitions']
     if finish and own:
         return rep.finish()
     return rep
